@@ -42,7 +42,7 @@ InvalidChecksum: ...
 
 from stdnum.exceptions import *
 from stdnum.iso7064 import mod_97_10
-from stdnum.util import clean
+from stdnum.util import clean, isdigits
 
 
 def compact(number):
@@ -55,6 +55,10 @@ def validate(number):
     """Check if the number is valid. This checks the length, format and check
     digits."""
     number = compact(number)
+    if len(number) != 20:
+        raise InvalidLength()
+    if not isdigits(number[-2:]):
+        raise InvalidFormat()
     mod_97_10.validate(number)
     return number
 
